@@ -58,6 +58,9 @@ pub struct PoolProg {
     pub probe: Option<(usize, usize)>,
     /// this program is the first `len` bytes of pool program #i's buffer (same start address)
     pub prefix_of: Option<(usize, usize)>,
+    /// fixed VM only: reads the internal buffer beyond the 16 bytes its offsets (0, 8) need; the
+    /// outcome (an error on this tree) is whatever a fresh VM gives - never predicted by the model
+    pub tail_probe: bool,
 }
 
 const HELPER_ID: u32 = 7;
@@ -114,7 +117,7 @@ pub fn mk_pool(rng: &mut Rng, pkt_addr: u64) -> Vec<PoolProg> {
             }
         }
         v.push(Insn::new(EXIT, 0, 0, 0, 0));
-        pool.push(PoolProg { bytes: encode_prog(&v), id, needs_helper, frame_probe, default_ok, probe, prefix_of: None });
+        pool.push(PoolProg { bytes: encode_prog(&v), id, needs_helper, frame_probe, default_ok, probe, prefix_of: None, tail_probe: false });
     }
     // a pair of valid programs that share their start address: #12 = lddw; exit; exit and #13 = its
     // first three slots (a different program as far as loading and compiling are concerned)
@@ -123,8 +126,17 @@ pub fn mk_pool(rng: &mut Rng, pkt_addr: u64) -> Vec<PoolProg> {
         let v = vec![Insn::new(LDDW, 0, 0, 0, id as u32 as i32), Insn::new(0, 0, 0, 0, (id >> 32) as u32 as i32), Insn::new(EXIT, 0, 0, 0, 0), Insn::new(EXIT, 0, 0, 0, 0)];
         let bytes = encode_prog(&v);
         let long_idx = pool.len();
-        pool.push(PoolProg { bytes: bytes.clone(), id, needs_helper: false, frame_probe: false, default_ok: true, probe: None, prefix_of: None });
-        pool.push(PoolProg { bytes: bytes[..24].to_vec(), id, needs_helper: false, frame_probe: false, default_ok: true, probe: None, prefix_of: Some((long_idx, 24)) });
+        pool.push(PoolProg { bytes: bytes.clone(), id, needs_helper: false, frame_probe: false, default_ok: true, probe: None, prefix_of: None, tail_probe: false });
+        pool.push(PoolProg { bytes: bytes[..24].to_vec(), id, needs_helper: false, frame_probe: false, default_ok: true, probe: None, prefix_of: Some((long_idx, 24)), tail_probe: false });
+    }
+    // fixed VM: programs written for offsets (0, 8) that read the internal buffer at +0x10 / +0x18,
+    // i.e. inside the buffer an EARLIER load with larger offsets needed
+    // (a dead call to a helper nobody registers keeps both compilers from accepting them, so that
+    // only the bounds-checking interpreter ever runs them)
+    for t in [0x10i16, 0x18] {
+        let id = next_id(rng, 0);
+        let v = vec![Insn::new(LDXDW, 2, 1, t, 0), Insn::new(LDDW, 0, 0, 0, id as u32 as i32), Insn::new(0, 0, 0, 0, (id >> 32) as u32 as i32), Insn::new(JA, 0, 0, 1, 0), Insn::new(CALL, 0, 0, 0, 0x7777), Insn::new(EXIT, 0, 0, 0, 0)];
+        pool.push(PoolProg { bytes: encode_prog(&v), id, needs_helper: false, frame_probe: false, default_ok: true, probe: Some((0, 8)), prefix_of: None, tail_probe: true });
     }
     // one byte string no verifier-independent reading can run: truncated (7 bytes) - only loadable
     // under accept-all; never executed by the generator after such a load
@@ -152,6 +164,9 @@ pub enum Obs {
     Val(u64),
     Panic(String),
     Skipped,
+    /// the interpreter's result on this VM differs from a freshly built VM with the same program,
+    /// verifier, helper and calculator (first = this VM, second = fresh VM)
+    Diverged(String),
 }
 
 fn accepts(v: Ver, p: &PoolProg) -> bool {
@@ -215,6 +230,16 @@ pub fn prog_slice(pool: &[PoolProg], i: usize) -> &[u8] {
 pub fn exec_history(kind: &Kind, ops: &[Op], pool: &[PoolProg], pk: (*mut u8, usize), mb: (*mut u8, usize), out: &mut Vec<u8>) {
         let mut vm: Option<Vm> = None;
         let offs_of = |pi: usize| pool[pi].probe.unwrap_or((0, 8));
+        // what a fresh VM needs to be in the same state (only what the API calls themselves said)
+        let (mut cur, mut cur_helper, mut cur_calc, mut cur_ver): (Option<usize>, Option<usize>, bool, Ver) = (None, None, false, Ver::Default);
+        let ver_fn = |v: Ver| -> rbpf::Verifier {
+            match v {
+                Ver::Default => v_default_like,
+                Ver::AcceptAll => v_accept_all,
+                Ver::RejectAll => v_reject_all,
+                Ver::Custom => v_custom,
+            }
+        };
         for op in ops {
             let o: Obs = match sys::catch(|| -> Obs {
                 match op {
@@ -223,6 +248,7 @@ pub fn exec_history(kind: &Kind, ops: &[Op], pool: &[PoolProg], pk: (*mut u8, us
                         match Vm::new(*kind, p.map(|i| prog_slice(pool, i)), offs) {
                             Ok(v) => {
                                 vm = Some(v);
+                                (cur, cur_helper, cur_calc, cur_ver) = (*p, None, false, Ver::Default);
                                 Obs::Ok
                             }
                             Err(_) => Obs::Err,
@@ -230,7 +256,10 @@ pub fn exec_history(kind: &Kind, ops: &[Op], pool: &[PoolProg], pk: (*mut u8, us
                     }
                     _ if vm.is_none() => Obs::Skipped,
                     Op::SetProgram(p) => match vm.as_mut().unwrap().set_program(prog_slice(pool, *p), offs_of(*p)) {
-                        Ok(()) => Obs::Ok,
+                        Ok(()) => {
+                            cur = Some(*p);
+                            Obs::Ok
+                        }
                         Err(_) => Obs::Err,
                     },
                     Op::SetVerifier(v) => {
@@ -241,16 +270,25 @@ pub fn exec_history(kind: &Kind, ops: &[Op], pool: &[PoolProg], pk: (*mut u8, us
                             Ver::Custom => v_custom,
                         };
                         match vm.as_mut().unwrap().set_verifier(f) {
-                            Ok(()) => Obs::Ok,
+                            Ok(()) => {
+                                cur_ver = *v;
+                                Obs::Ok
+                            }
                             Err(_) => Obs::Err,
                         }
                     }
                     Op::RegisterHelper(j) => match vm.as_mut().unwrap().register_helper(HELPER_ID, hlp::PLAIN[*j]) {
-                        Ok(()) => Obs::Ok,
+                        Ok(()) => {
+                            cur_helper = Some(*j);
+                            Obs::Ok
+                        }
                         Err(_) => Obs::Err,
                     },
                     Op::SetCalc => match vm.as_mut().unwrap().set_calc(calc_by_prog, Box::new(())) {
-                        Ok(()) => Obs::Ok,
+                        Ok(()) => {
+                            cur_calc = true;
+                            Obs::Ok
+                        }
                         Err(_) => Obs::Err,
                     },
                     Op::JitCompile => {
@@ -272,10 +310,38 @@ pub fn exec_history(kind: &Kind, ops: &[Op], pool: &[PoolProg], pk: (*mut u8, us
                         Ok(()) => Obs::Ok,
                         Err(_) => Obs::Err,
                     },
-                    Op::Exec => match vm.as_mut().unwrap().exec(pk, mb) {
-                        Ok(v) => Obs::Val(v),
-                        Err(_) => Obs::Err,
-                    },
+                    Op::Exec => {
+                        let here = vm.as_mut().unwrap().exec(pk, mb);
+                        // "the result depends only on the loaded program, the registered helpers and
+                        // the buffers passed in": a VM built from scratch into the same state must agree
+                        if let Some(ci) = cur {
+                            let offs = offs_of(ci);
+                            let fresh = (|| -> Result<u64, String> {
+                                let mut f = Vm::new(*kind, None, offs)?;
+                                f.set_verifier(ver_fn(cur_ver))?;
+                                f.set_program(prog_slice(pool, ci), offs)?;
+                                if let Some(j) = cur_helper {
+                                    f.register_helper(HELPER_ID, hlp::PLAIN[j])?;
+                                }
+                                if cur_calc {
+                                    f.set_calc(calc_by_prog, Box::new(()))?;
+                                }
+                                f.exec(pk, mb)
+                            })();
+                            let same = match (&here, &fresh) {
+                                (Ok(a), Ok(b)) => a == b,
+                                (Err(_), Err(_)) => true,
+                                _ => false,
+                            };
+                            if !same {
+                                return Obs::Diverged(format!("this VM: {:x?}; fresh VM in the same state: {:x?}", here, fresh));
+                            }
+                        }
+                        match here {
+                            Ok(v) => Obs::Val(v),
+                            Err(_) => Obs::Err,
+                        }
+                    }
                     Op::ExecJit => match unsafe { vm.as_mut().unwrap().exec_jit(pk, mb) } {
                         Ok(v) => Obs::Val(v),
                         Err(_) => Obs::Err,
@@ -307,6 +373,13 @@ pub fn exec_history(kind: &Kind, ops: &[Op], pool: &[PoolProg], pk: (*mut u8, us
                     return;
                 }
                 Obs::Skipped => out.push(4),
+                Obs::Diverged(m) => {
+                    out.push(5);
+                    let b = m.as_bytes();
+                    out.push(b.len().min(200) as u8);
+                    out.extend_from_slice(&b[..b.len().min(200)]);
+                    return;
+                }
             }
         }
 }
@@ -399,6 +472,12 @@ pub fn run(a: &Args, rep: &mut Report) {
                     pos += 2 + l;
                     Obs::Panic(msg)
                 }
+                5 => {
+                    let l = b[pos + 1] as usize;
+                    let msg = String::from_utf8_lossy(&b[pos + 2..pos + 2 + l]).to_string();
+                    pos += 2 + l;
+                    Obs::Diverged(msg)
+                }
                 _ => {
                     pos += 1;
                     Obs::Skipped
@@ -413,9 +492,14 @@ pub fn run(a: &Args, rep: &mut Report) {
                 fail(rep, "panic", format!("panicked: {msg}"));
                 break;
             }
+            if let Obs::Diverged(msg) = &obs {
+                fail(rep, "differs-from-fresh-vm", format!("the result depends on the VM's history: {msg}"));
+                break;
+            }
             if obs == Obs::Skipped {
                 continue;
             }
+            rep.count(if matches!(op, Op::Exec) { "interpreter_runs_compared_with_fresh_vm" } else { "other_calls" });
             let mut stop = false;
             match op {
                 Op::New(p) => {
@@ -483,7 +567,7 @@ pub fn run(a: &Args, rep: &mut Report) {
                     let ok = match m.prog {
                         None => false,
                         // (Cranelift refuses programs with eBPF-to-eBPF calls)
-                        Some(i) => (!pool[i].needs_helper || m.helper.is_some()) && !(matches!(op, Op::ClCompile) && pool[i].frame_probe),
+                        Some(i) => (!pool[i].needs_helper || m.helper.is_some()) && !(matches!(op, Op::ClCompile) && pool[i].frame_probe) && !pool[i].tail_probe,
                     };
                     match (&obs, ok) {
                         (Obs::Ok, true) => {
@@ -506,8 +590,11 @@ pub fn run(a: &Args, rep: &mut Report) {
                 }
                 Op::Exec => {
                     let want = m.prog.and_then(|i| value_of(&pool[i], m.helper, m.offs, *kind, m.calc));
+                    let tail = m.prog.is_some_and(|i| pool[i].tail_probe);
                     match (&obs, &want) {
                         (Obs::Err, None) => {}
+                        // decided by the comparison with a fresh VM made in the child
+                        (Obs::Err, _) if tail => {}
                         (Obs::Val(v), Some(ws)) if ws.contains(v) => {
                             if let Some((lv, le)) = last_exec {
                                 if le == epoch && lv != *v {
